@@ -442,9 +442,21 @@ class SymInt(object):
         return hash(cur().concretize(self))
 
     def __format__(self, spec):
-        return format(cur().concretize(self), spec)
+        c = cur()
+        if c.format_shadow:
+            # text rendering is output, not control flow: render the path's representative value without forking
+            # (stated under-approximation, enabled per check by ENGINE_OPTS["format_shadow"])
+            c.notes["formatted_by_shadow"] = c.notes.get("formatted_by_shadow", 0) + 1
+            return format(self.cv, spec)
+        return format(c.concretize(self), spec)
 
     def __repr__(self):
+        try:
+            c = cur()
+        except BaseException:
+            c = None
+        if c is not None and getattr(c, "format_shadow", False):
+            return repr(self.cv)
         return "<SymInt cv=%r %d terms>" % (self.cv, len(self.t))
 
     __str__ = __repr__
@@ -1079,6 +1091,7 @@ class Ctx(object):
         self.blasted = {}
         self.decided = {}
         self.max_decisions = opts.get("max_decisions", 4000)
+        self.format_shadow = bool(opts.get("format_shadow", False))
         self.n_cmp = 0
         self.proved = 0
         self.proved_norm = 0  # decided by normalisation to a concrete True
